@@ -71,3 +71,25 @@ impl ResolveRegistry {
         resolved
     }
 }
+
+/// Verification hooks (feature `crux_verif`, off by default): read-only occupancy of the registry.
+#[cfg(feature = "crux_verif")]
+impl ResolveRegistry {
+    /// Number of entries currently held.
+    pub fn verif_len(&self) -> usize {
+        self.0.lock().expect("Registry Mutex poisoned").len()
+    }
+
+    /// Arity of the entry stored under `id`: 0 = never, 1 = once, 2 = many; `None` if vacant.
+    pub fn verif_kind(&self, id: u32) -> Option<u8> {
+        self.0
+            .lock()
+            .expect("Registry Mutex poisoned")
+            .get(id as usize)
+            .map(|entry| match entry {
+                ResolveSerialized::Never => 0,
+                ResolveSerialized::Once(_) => 1,
+                ResolveSerialized::Many(_) => 2,
+            })
+    }
+}
